@@ -181,6 +181,14 @@ func (s *seqCase) emit() {
 	if s.viol {
 		tags = append(tags, "observed-violation")
 	}
+	// C07_guard: no contract-breaking harness interceptor (masks are never empty, arguments always well-formed)
+	if s.tags["undocumented-interceptor"] {
+		tags = append(tags, "guard: outside (contract-breaking interceptor)")
+	} else {
+		tags = append(tags, "guard: inside")
+		s.g.guardIn++
+	}
+	s.g.guardAll++
 	s.g.o.Add(vcoq.Case{Coq: coq, JSON: map[string]any{"kind": s.kind, "collection": s.coll, "steps": s.js},
 		Key: coq, NonTrivial: len(s.ops) >= 3, Tags: tags})
 }
